@@ -29,6 +29,7 @@ import sys
 import time
 import zipfile
 import re
+from zlib import error as zlib_error
 
 sys.path.insert(0, os.path.dirname(os.path.abspath(__file__)))
 sys.path.insert(0, os.path.dirname(os.path.dirname(os.path.abspath(__file__))))
@@ -46,7 +47,7 @@ TB = [
 ]
 AS = ["PARTIAL by nature: the hand-written readers' decisions are inside theorems (over decoded input); memory safety, the decoders and everything native is differential testing in isolated workers",
       "worker limits: RLIMIT_AS 6 GB, 30 s per file"]
-RULE = ("for each of 11 file kinds (sig JSON, sig.gz, zip, sqldb, manifest CSV, picklist CSV, SBT zip, SBT json, LCA json, nodegraph, taxonomy CSV) "
+RULE = ("for each of 13 file kinds (sig JSON, sig.gz, zip with and without manifest, sqldb, manifest CSV, picklist CSV, SBT zip, SBT json, LCA json, nodegraph, HyperLogLog, taxonomy CSV) "
         "a valid seed file is produced with the current code and mutated: bit flips, truncation, insertion, 8-byte size-field inflation at every offset "
         "(binary kinds), JSON tree edits (field deletion/duplication/type change/deep nesting/huge integers), CSV column edits, member edits inside zip and "
         "gzip containers; for the four kinds with a reader model (manifest, picklist, SBT json, LCA json) also targeted damages aimed at single decisions "
@@ -58,6 +59,19 @@ RULE = ("for each of 11 file kinds (sig JSON, sig.gz, zip, sqldb, manifest CSV, 
         "(generic loader + iteration + a search, manifest, picklist, taxonomy loaders) in a worker; after a failed load a sentinel sketch must still have "
         "the right md5; for modelled kinds the real reader is also called directly (facts + executed-line count) and the Lean model is run on the decoders' "
         "answers for the same file; every load_file_as_index call is recorded loader by loader and replayed through the chain model; "
+        "periphery: besides the primary loader every file goes through one alternate route of its kind, chosen by a counter inside the worker "
+        "(load_signatures_from_json on path / bytes / text / file handle / with filters, load_one_signature*, LinearIndex / MultiIndex / "
+        "ZipFileLinearIndex(+no manifest) / SqliteIndex / load_sqlite_index / load_sbt_index / SBT.load(cache_size=1) / leaves() / load_single_database / "
+        "load_databases / StandaloneManifestIndex / get_manifest(rebuild) / sourmash_args.load_query_signature / load_many_signatures / load_picklist / "
+        "stdin / Nodegraph.from_buffer / extract_nodegraph_info / HLL.from_buffer / LineageDB.load / lca load_taxonomy_assignments / the command line "
+        "in-process: sig describe, cat, fileinfo, manifest, check, lca summarize); two routes that both succeed must have read the same signatures; after a "
+        "successful load the views must agree (len, signatures(), manifest rows, signatures_with_location, md5 of signature vs sketch) and the loaded "
+        "index is used (select variants, leaves, lineage lookups, downsample); every loaded object is kept and re-read after later jobs; each file is "
+        "loaded twice; "
+        "damage class 'declared sizes': data correct, a length / count field inflated or zeroed — zip member uncompressed / compressed size (32-bit field and "
+        "zip64 extra 2^33..2^62, identically in local header and central directory, and one-sided; stored and deflated; manifest, signature / leaf, SBT "
+        "node and description members; end-of-directory counts), gzip ISIZE trailer and FEXTRA length (standalone and inside a zip member), SQLite page "
+        "size / page count / freelist count; honest re-writes with true sizes must load; "
         "damage class 'referential': seven multi-file collections of 8 signatures with pairwise disjoint hashes (SBT json+directory, SBT zip, zip "
         "collection with manifest, directory of .sig files, standalone manifest CSV and SQLite manifest pointing at files, list of paths) whose index / "
         "manifest stays intact while every referenced file or zip member in turn is deleted, renamed, truncated to 0 bytes, swapped with another, or has "
@@ -265,7 +279,17 @@ def mutations(kind, seed, rng, n):
         for off in range(0, len(seed)):
             for val in (2 ** 40, 2 ** 63, 2 ** 64 - 1, 0, 2 ** 32):
                 res.append(inflate_at(seed, off, val))
-    if kind in ("sqldb", "zip", "sbtzip"):
+    if kind == "hll":
+        # header: "HLL" version p q ksize, then 2^p registers: every header byte through a ladder of values
+        for off in range(0, min(8, len(seed))):
+            for val in (0, 1, 3, 4, 5, 13, 17, 18, 19, 20, 24, 31, 32, 33, 40, 47, 62, 63, 64, 65, 127, 128, 200, 255):
+                b = bytearray(seed)
+                b[off] = val
+                res.append(bytes(b))
+        for off in range(0, min(16, len(seed))):
+            for val in (2 ** 40, 2 ** 63, 2 ** 64 - 1, 0):
+                res.append(inflate_at(seed, off, val))
+    if kind in ("sqldb", "zip", "zipnomf", "sbtzip"):
         for _ in range(n // 2):
             res.append(inflate_at(seed, rng.randrange(max(1, len(seed) - 8)), rng.choice([2 ** 40, 2 ** 63, 2 ** 64 - 1, 0])))
     if kind in ("sig", "lca", "sbtjson"):
@@ -281,7 +305,7 @@ def mutations(kind, seed, rng, n):
             pass
     if kind in ("manifest", "picklist", "taxonomy"):
         res += csv_mutations(seed, rng, n)
-    if kind in ("zip", "sbtzip"):
+    if kind in ("zip", "zipnomf", "sbtzip"):
         def mm(name, data):
             k = rng.random()
             if name.endswith((".sig", ".sig.gz", ".json")) and k < 0.5:
@@ -443,7 +467,7 @@ def ref_oracle(rm, o, b):
     if dmg == "intact":
         if o is None or not o.startswith("ok") or b is None:
             return None            # reported as seed-rejected below
-        bad = [k for k in ("search", "gather", "prefetch", "search_fresh") if set(b.get(k) or ["?"]) != {"F"}]
+        bad = [k for k in ("search", "gather", "prefetch", "search_fresh") if b.get(k) and set(b.get(k)) != {"F"}]
         if bad or b.get("signatures") != rm["expected"]:
             return (f"C20:{kind}:intact-collection-wrong-answers", f"the undamaged {kind} seed collection does not answer for its own signatures: {b}")
         return None
@@ -522,6 +546,8 @@ def main():
         seed_bytes = {k: open(p, "rb").read() for k, p in seeds}
         seed_paths = set(p for _, p in seeds)
 
+        declared_label = {}
+
         def add_mutant(kind, seedpath, suffix, j, m, extra, tgt):
             d = os.path.join(tmp, f"{kind}_{'t' if tgt else 'r'}{j}")
             os.makedirs(d)
@@ -563,6 +589,19 @@ def main():
             kinds[kind] = len(muts) + len(tg)
             for j, m in enumerate(muts):
                 add_mutant(kind, path, suffix, j, m, None, False)
+            # damage class 'declared sizes': data correct, a length / count field lies
+            import declared
+            dl = []
+            if kind in ("zip", "zipnomf", "sbtzip"):
+                dl = declared.zip_declared(seed, chk.rng, chk.tier == "thorough")
+            elif kind == "siggz":
+                dl = declared.gzip_declared(seed)
+            elif kind == "sqldb":
+                dl = declared.sqlite_declared(seed)
+            for j, (label, m) in enumerate(dl):
+                declared_label[len(jobs)] = label
+                add_mutant(kind, path, suffix, 100000 + j, m, None, True)
+            kinds[kind] += len(dl)
             seen = set()
             for j, (m, extra) in enumerate(tg):
                 if (m, extra) in seen:
@@ -612,6 +651,8 @@ def main():
                     meta.append(("ref-" + rkind, b"", "", None, True))
                     nref += 1
             kinds["referential"] = nref
+        if chk.tier == "thorough":
+            os.environ["C20_ALL_ROUTES"] = "1"        # every alternate route on every file
         # distribute over workers
         nw = 16
         chunks = [list(range(i, len(jobs), nw)) for i in range(nw)]
@@ -626,6 +667,30 @@ def main():
         ng_idx = [i for i, j in enumerate(jobs) if j[0] == "nodegraph"]
         text = "# case\n" + "".join("ng " + meta[i][1].hex() + "\n" for i in ng_idx)
         model = common.run_model("ng", text)[1:]
+        # HyperLogLog files through the reader model
+        hl_idx = [i for i, j in enumerate(jobs) if j[0] == "hll"]
+        hl_model = common.run_model("ng", "# case\n" + "".join("hll " + meta[i][1].hex() + "\n" for i in hl_idx))[1:] if hl_idx else []
+        hl_cmp = {"compared": 0, "agreed": 0, "skipped": 0}
+        for i, m in zip(hl_idx, hl_model):
+            o = outcome[i] or ""
+            chk.cov["traces_validated_against_impl"] += 1
+            if m == "skip" or o.startswith(("signal", "timeout", "died")):
+                hl_cmp["skipped"] += 1          # compressed input / reported by the crash oracle
+                continue
+            hl_cmp["compared"] += 1
+            impl_cls = "ok" if o.startswith("ok") else "err"
+            if m.startswith("alloc"):
+                good = impl_cls == "err"        # 2^p zero-filled bytes requested, then the registers are not there
+            else:
+                good = m.split(" ")[0] == impl_cls and (impl_cls == "err" or m == o)
+            if good:
+                hl_cmp["agreed"] += 1
+            else:
+                chk.add_violation("correspondence", "C20:corr:hll-reader",
+                                  f"HyperLogLog reader model says `{m[:60]}` but the implementation says `{o[:60]}` for a {len(meta[i][1])}-byte file",
+                                  {"kind": "hll", "suffix": ".hll", "bytes_b64": base64.b64encode(meta[i][1]).decode(), "model": m, "impl": o},
+                                  concrete=False)
+        chk.cov["hll_reader_model"] = hl_cmp
         # the reader models
         ops = []        # (job index, tag)
         for i, r in enumerate(result):
@@ -636,6 +701,7 @@ def main():
         if len(rmodel) != len(ops):
             chk.exit_tool(f"reader-model driver answered {len(rmodel)} lines for {len(ops)} ops")
         stats = {}
+        routes_seen = {}
         distinct = 0
         nv = 0
         for i, (job, (k2, data, suffix, extra, tgt), o) in enumerate(zip(jobs, meta, outcome)):
@@ -671,14 +737,29 @@ def main():
                     try:
                         doc = json.loads(data)
                         dd = doc.get("d")
-                        if isinstance(dd, int) and dd > 10 ** 6 and o == "timeout":
+                        if isinstance(dd, int) and not isinstance(dd, bool) and dd > 1000 and o == "timeout":
                             detail = ":huge-d"
+                        if isinstance(dd, (int, float)) and not isinstance(dd, bool) and dd < 1 and o == "timeout":
+                            detail = ":d-below-one"
                         if huge_key(doc):
                             sig = "C20:sbtjson:huge-node-key"
-                    except (ValueError, AttributeError):
+                    except (ValueError, AttributeError, RecursionError):
                         pass
+                try:
+                    route = open(path + ".route").read()
+                    detail += ":route:" + route
+                    rp["route"] = route
+                except OSError:
+                    pass
+                if kind == "nodegraph" and len(data) > 10 and data[:4] == b"OXLI" and data[10] == 0:
+                    detail += ":no-tables"
+                if i in declared_label:
+                    detail += ":declared-size:" + declared_label[i].split(":")[0]
+                    rp["declared"] = declared_label[i]
                 chk.add_violation("crash", sig or f"C20:{kind}:{(o or 'none').split()[0]}{detail}",
-                                  f"loading a damaged {kind} file ({len(data)} bytes) ended the worker: {o}", rp)
+                                  f"loading a damaged {kind} file ({len(data)} bytes"
+                                  + (f"; declared-size damage {declared_label[i]}" if i in declared_label else "")
+                                  + f") ended the worker: {o}", rp)
             elif "SENTINEL" in o:
                 nv += 1
                 chk.add_violation("crash", f"C20:{kind}:sentinel", f"after a failed load of a damaged {kind} file the process is damaged: {o}", rp)
@@ -694,12 +775,52 @@ def main():
                     try:
                         if huge_key(json.loads(data)):
                             sig = "C20:sbtjson:huge-node-key"
-                    except ValueError:
+                    except (ValueError, RecursionError):
                         pass
                 chk.add_violation("oracle", sig or f"C20:{kind}:MemoryError{detail}",
                                   f"loading a damaged {kind} file ({len(data)} bytes) exhausted a resource: MemoryError", rp)
+            elif i in declared_label and declared_label[i].startswith("honest") and not o.startswith("ok"):
+                chk.add_violation("oracle", f"C20:{kind}:honest-rewrite-rejected",
+                                  f"a re-write of the valid {kind} seed with TRUE sizes ({declared_label[i]}) was rejected: {o}", rp)
             elif is_seed and not o.startswith("ok"):
                 chk.add_violation("oracle", f"C20:{kind}:seed-rejected", f"the unmodified valid {kind} seed file was rejected: {o}", rp)
+            if kind in ("sig", "siggz") and (o or "").startswith("ok") and (result[i] or {}).get("n_primary") == 0 and data:
+                raw = data
+                try:
+                    if raw[:2] == b"\x1f\x8b":
+                        raw = gzip.decompress(raw)
+                    doc_ = json.loads(raw)
+                    valid_empty = isinstance(doc_, list)
+                except (ValueError, OSError, EOFError, RecursionError, zlib_error):
+                    valid_empty = False
+                if not valid_empty:
+                    chk.add_violation("oracle", f"C20:{kind}:silently-empty",
+                                      f"a damaged {kind} file ({len(data)} bytes, not valid JSON / gzip) loads as an EMPTY collection without any error", rp)
+            per = (result[i] or {}).get("periphery") or {}
+            for name, out in per.get("alt") or []:
+                routes_seen.setdefault(kind, {}).setdefault(name, {}).setdefault(out.split(" ")[0] if not out.startswith("exc") else out, 0)
+                routes_seen[kind][name][out.split(" ")[0] if not out.startswith("exc") else out] += 1
+            if (result[i] or {}).get("periphery_error"):
+                chk.add_violation("oracle", f"C20:{kind}:periphery-harness-error", "the periphery layer itself failed: " + result[i]["periphery_error"], rp, concrete=False)
+            for prob in per.get("problems") or []:
+                cls_, _, text = prob.partition(": ")
+                if cls_ == "routes-disagree":
+                    m_ = re.search(r"signatures, ([^ ]+(?: [a-z_]+)?) read", text)
+                elif cls_ == "route-silently-empty":
+                    m_ = re.search(r"this file, ([^ ]+(?: [a-z_]+)?) returns", text)
+                else:
+                    m_ = re.match(r"\[([a-z0-9-]+)\] ", text)
+                sig_ = f"C20:{kind}:{cls_}" + (":" + m_.group(1).replace(" ", "_") if m_ else "")
+                # one defect seen through several routes / views: name the defect, not the route
+                shape = re.match(r"\[(subset|md5-differ)\] ", text)
+                if kind in ("sbtjson", "sbtzip") and (sig_.endswith(":len-vs-signatures") or (cls_ == "routes-disagree" and shape and shape.group(1) == "subset")):
+                    sig_ = f"C20:{kind}:leaves-vs-manifest"
+                elif kind == "sqldb" and (sig_.endswith(":manifest-md5-vs-signatures") or (cls_ == "routes-disagree" and shape and shape.group(1) == "md5-differ")):
+                    sig_ = "C20:sqldb:stored-md5-vs-sketch"
+                elif kind in ("zip", "zipnomf") and cls_ == "routes-disagree" and shape and shape.group(1) == "subset" \
+                        and re.search(r"(get_manifest:rebuild|no-manifest|yield-all) read", text):
+                    sig_ = f"C20:{kind}:same-md5-member-dropped"
+                chk.add_violation("oracle", sig_, f"{kind} file ({len(data)} bytes): {text}", dict(rp, problem=prob))
             # C20.4 (repaired): a pickfile that is valid UTF-8 and valid CSV must not be refused by the version sniffing
             plf = facts.get("pl")
             if kind in ("picklist", "plarg") and plf == "exc Error" and not data.startswith(b"\x1f\x8b"):
@@ -725,6 +846,8 @@ def main():
             chk.cov["traces_validated_against_impl"] += 1
             if m == "skip":
                 continue
+            if o.startswith(("signal", "timeout", "died")):
+                continue                      # reported by the crash oracle
             impl_cls = "ok" if o.startswith("ok") else "err"
             if m.split(" ")[0] != impl_cls or (impl_cls == "ok" and " " in o and m != o):
                 chk.add_violation("correspondence", "C20:corr:nodegraph-reader",
@@ -802,6 +925,10 @@ def main():
                 c["ok" if fin == "idx" else "exc"] += 1
                 if fin != "idx":
                     c["classes"][fin[4:]] = c["classes"].get(fin[4:], 0) + 1
+        chk.cov["alternate_routes"] = routes_seen
+        chk.cov["declared_sizes"] = {}
+        for i, label in declared_label.items():
+            chk.cov["declared_sizes"].setdefault(jobs[i][0], {})[label] = outcome[i]
         chk.cov["distinct_nontrivial"] = distinct
         chk.cov["rule"] = RULE
         chk.cov["outcomes_by_kind"] = stats
